@@ -269,6 +269,44 @@ def derived(check, tier, seed):
 
 
 
+def characters(check, tier):
+    """the column model is about wcwidth, not about any other classification of characters: separators, format characters, emoji, CJK,
+    NUL (width 0) are measurable text; characters without a width (C0 / C1 controls, DEL) make width and width_aware_slice raise"""
+    chars = ["\u3000", "\u00a0", "\u200b", "\u200d", "\u00ad", "\u2028", "\ufeff", "\U0001F600", "\u4e2d", "\x00", "\u0301", "\uff25", "\u1100",
+             "\t", "\n", "\x7f", "\x85", "\x1b", "\u0600", "\u2060", "\u00e9", "~"]
+    s = Suite(check, "C10.characters", f"{len(chars)} characters of different classes (ideographic / no-break / zero-width space, joiner, soft hyphen, "
+              "line separator, BOM, emoji, CJK, Hangul jamo, NUL, combining, fullwidth, controls, DEL) inside 'a?' + 'b' in two runs: width, "
+              "width_at_offset and every column range against the wcwidth column model; ValueError exactly when a character has no width",
+              bound="2 runs, every range")
+    for ch in chars:
+        f = FmtStr(Chunk("a" + ch, ATTS[0]), Chunk(ch + "b", ATTS[1]))
+        txt = f.s
+        ws = [wcwidth(c) for c in txt]
+        if min(ws) < 0:
+            for what, fn in (("width", lambda: f.width), ("width_aware_slice(0:1)", lambda: f.width_aware_slice(slice(0, 1)))):
+                s.case((ch, what))
+                try:
+                    r = fn()
+                    s.fail("C10.unmeasurable", dict(char=f"U+{ord(ch):04X}", what=what), f"{what} of text with U+{ord(ch):04X} (no width) returned {r!r}, ValueError expected")
+                except ValueError:
+                    pass
+                except Exception as e:      # noqa: BLE001
+                    s.fail("C10.unmeasurable", dict(char=f"U+{ord(ch):04X}", what=what), f"raised {type(e).__name__}: {e} (ValueError expected)")
+            continue
+        w = sum(ws)
+        s.case((ch, "w"), sample=dict(char=f"U+{ord(ch):04X}") if len(s.samples) < 2 else None)
+        d = width_case(f, txt)
+        if d:
+            s.fail("C10.width.characters", dict(char=f"U+{ord(ch):04X}"), d)
+        for a in range(0, w + 2):
+            for b in range(a, w + 2):
+                s.case((ch, a, b))
+                d = cut_case(f, a, b)
+                if d:
+                    s.fail("C10.width_aware_slice.characters", dict(char=f"U+{ord(ch):04X}", a=a, b=b), d[:300])
+    s.done()
+
+
 def long_inputs(check, tier):
     from bounded.common import long_values
     s = Suite(check, "C10.long", "width, width_at_offset and column ranges / index forms of values with thousands of runs against the column model",
@@ -299,6 +337,7 @@ def long_inputs(check, tier):
 
 def run(check, tier, seed):
     long_inputs(check, tier)
+    characters(check, tier)
     lemma_selftest(check, tier)
     for c in CONTRACTS:
         verify(c, tier, check)
